@@ -7,7 +7,7 @@ Cases:
       -> (ok (T0 T1 ...)) times of the instructions in order | (err CLASS)
   (visit STMT...)     -> (ok ((K T)...)) kind and time of every statement in pre-order | (err CLASS)
   (raise INSTR...)    INSTR ::= (i T) | (j T DEST TM)   TM ::= N | none
-      -> (ok (OUT...)) | (err CLASS)   OUT ::= (lab r|n INDEX) | (abs N) | (rel N) | (ins)
+      -> (ok (OUT...)) | (err CLASS)   OUT ::= (lab r|n INDEX) | (lab start) | (abs N) | (rel N) | (ins)
 -/
 namespace TruthModel.Driver.C13
 open TruthModel TruthModel.Time
@@ -46,7 +46,9 @@ def toRInstr (s : Sexp) : RInstr :=
   | _ => { time := Int32.ofInt (a[0]!).asInt, jump := none }
 
 def ofOut : Out → Sexp
-  | .label r i => Sexp.app "lab" [.atom (if r then "r" else "n"), Sexp.nat i]
+  | .label (.dest i) => Sexp.app "lab" [.atom "n", Sexp.nat i]
+  | .label (.before i) => Sexp.app "lab" [.atom "r", Sexp.nat i]
+  | .label .start => Sexp.app "lab" [.atom "start"]
   | .abs v => Sexp.app "abs" [Sexp.int v.toInt]
   | .rel d => Sexp.app "rel" [Sexp.int d.toInt]
   | .instr => Sexp.app "ins" []
